@@ -285,6 +285,14 @@ fn program(case: &[i128]) -> Option<Prog> {
             3 => lens_fn("x", &format!("&'a mut [u8; {}]", k), true, &format!("let r: &'a mut {} = x.into(); (r,)", a_n)),
             4 => lens_fn("x", &format!("&'a {}", a_n), true, &format!("let r: &[u8; {}] = x.as_ref(); (r,)", k)),
             5 => lens_fn("x", &format!("&'a mut {}", a_n), true, &format!("let r: &mut [u8; {}] = x.as_mut(); (r,)", k)),
+            // 6..11: the same six conversions called from code generic over `const U: usize` that states only the
+            // published bound `Const<U>: IntoArrayLength`
+            6 => lens_fn("x", &format!("[u8; {}]", k), false, &format!("fn g<T, const U: usize>(x: [T; U]) -> GenericArray<T, generic_array::ConstArrayLength<U>> where Const<U>: IntoArrayLength {{ x.into() }} let r: {} = g(x); (r,)", a_n)),
+            7 => lens_fn("x", &a_n, false, &format!("fn g<T, const U: usize>(x: GenericArray<T, generic_array::ConstArrayLength<U>>) -> [T; U] where Const<U>: IntoArrayLength {{ x.into() }} let r: [u8; {}] = g(x); (r,)", k)),
+            8 => lens_fn("x", &format!("&'a [u8; {}]", k), true, &format!("fn g<'b, T, const U: usize>(x: &'b [T; U]) -> &'b GenericArray<T, generic_array::ConstArrayLength<U>> where Const<U>: IntoArrayLength {{ x.into() }} let r: &'a {} = g(x); (r,)", a_n)),
+            9 => lens_fn("x", &format!("&'a mut [u8; {}]", k), true, &format!("fn g<'b, T, const U: usize>(x: &'b mut [T; U]) -> &'b mut GenericArray<T, generic_array::ConstArrayLength<U>> where Const<U>: IntoArrayLength {{ x.into() }} let r: &'a mut {} = g(x); (r,)", a_n)),
+            10 => lens_fn("x", &format!("&'a {}", a_n), true, &format!("fn g<'b, T, const U: usize>(x: &'b GenericArray<T, generic_array::ConstArrayLength<U>>) -> &'b [T; U] where Const<U>: IntoArrayLength {{ x.as_ref() }} let r: &[u8; {}] = g(x); (r,)", k)),
+            11 => lens_fn("x", &format!("&'a mut {}", a_n), true, &format!("fn g<'b, T, const U: usize>(x: &'b mut GenericArray<T, generic_array::ConstArrayLength<U>>) -> &'b mut [T; U] where Const<U>: IntoArrayLength {{ x.as_mut() }} let r: &mut [u8; {}] = g(x); (r,)", k)),
             _ => return None,
         },
         12 => match v {
@@ -496,6 +504,8 @@ fn cases(tier: &str, rng: &mut Rng) -> Vec<Vec<i128>> {
                 }
                 if (th && n <= 3 && u <= 4) || (!th && (v == 0 || v == 4) && u <= 1) || (!th && n + u == 2) {
                     push(11, v, n, u, -1, 0);
+                    // the same conversion from a caller generic over the const length
+                    push(11, v + 6, n, u, -1, 0);
                 }
             }
         }
